@@ -16,6 +16,15 @@ CLAIMED = {
         note=NOTE + "scipy.stats.rankdata('dense') is external (modelled).",
         technique="Lean 4 theorems on a list model of rank_values/_validate_result/kernel + differential correspondence against the real methods",
     ),
+    "C04": dict(
+        text="Proof: each aggregation kernel of the Lean model (written operation by operation after simple.py/similarity.py/moora.py) is "
+             "proved equal to the published formula in Finset/Real form (WSM, RatioMOORA, ReferencePoint, TOPSIS ideal/anti-ideal/"
+             "similarity for five metrics, WPM incl. its product form and order, FMF incl. the Aj=1.0 deviation as a theorem, MultiMOORA "
+             "pair rule and score count), and the refusal guards are characterised as iff; tie to the code: model run at exact Rat / Lean "
+             "Float vs the implementation's reported extras, plus an independent Fraction/60-digit Decimal evaluation as property oracle.",
+        note=NOTE + "Up-to-rounding means 1e-9*scale; IEEE rounding itself is outside the model. Known finding K2 (FMF constant) is printed, not alarmed.",
+        technique="Lean 4 theorems kernel = published formula (Finset sums, sup', Real.sqrt/log) + three-leg differential check (code / Lean model / exact Decimal)",
+    ),
 }
 PENDING = "check not built yet (planned in DESIGN.md section 6); not claimed until its model, theorems and correspondence exist"
 
